@@ -511,6 +511,14 @@ class ConvGeneralDilatedPlugin(PrimitiveLeafPlugin):
                 ctx, rhs_val, rhs_shape, rhs_layout, "conv_rhs_transpose"
             )
 
+        batch_groups = int(params.get("batch_group_count", 1) or 1)
+        if batch_groups != 1:
+            # ONNX Conv has no batch grouping; exporting a plain Conv would silently
+            # compute a different function.
+            raise NotImplementedError(
+                "conv_general_dilated with batch_group_count != 1 is not supported"
+            )
+
         groups = params.get("feature_group_count", 1)
         if groups != 1:
             conv_kwargs["group"] = int(groups)
